@@ -452,6 +452,18 @@ Proof.
     rewrite (inv_range HI) in Hn by assumption. discriminate.
 Qed.
 
+(* in EVERY reachable state (not only quiescent ones): a node that has started had all its upstream
+   nodes finished -- so a node that never finishes (its function raised, C06) has no running descendant *)
+Theorem started_only_after_upstream order es s :
+  NoDup order -> (forall n, In n order -> n < N /\ ups n = []) ->
+  run (init order) es = Some s ->
+  forall n u, In (LStart n) (log s) -> In u (ups n) -> before (LFinish u) (LStart n) (log s).
+Proof.
+  intros ND Hsrc Hrun n u Hn Hu.
+  destruct (init_inv ND Hsrc) as [HI0 _]. pose proof (run_inv _ HI0 Hrun) as HI.
+  apply (inv_order HI); assumption.
+Qed.
+
 (* ---- termination: every enabled step strictly decreases a measure bounded by 2|V| + |E| ------- *)
 Definition outdeg (n : nat) : nat := List.length (downs n).
 Definition wgt (x : st) (n : nat) : nat :=
